@@ -322,7 +322,7 @@ def innermost_frame_info(exc):
     return best
 
 
-class InnerTimeout(Exception):
+class InnerTimeout(BaseException):     # BaseException: the library's blanket 'except Exception' must not swallow it
     pass
 
 
